@@ -1144,6 +1144,36 @@ def lmer_lemmas(F, rep, which=None, ktypes=None):
                                      "set_slice_mut(%d, %d, value) changes exactly bases %d..%d; length byte and other bases unchanged" % (p, n, p, p + n))
                     guarded(rep, "L-lmer-slice", "%s/pos=%d/n=%d" % (tag, p, n), "set_slice_mut", f)
 
+        if want("slice") and lt.key("MerImmut", "set_slice") in F.insts:
+            # the immutable form (blanket-implemented): the same write on a copy — runs of 1, 2, 31 and 32 bases, at offsets that keep them
+            # inside a word, make them straddle one and end at the last base
+            V = in_bits("val", 64, 64)
+            pairs = sorted({(p_, n_) for p_ in (0, 1, 5, 31, 33, ML - 32, ML - 2, ML - 1) for n_ in (1, 2, 31, 32) if 0 <= p_ and n_ >= 1 and p_ + n_ <= ML})
+            for p_, n_ in pairs:
+                def f(p=p_, n=n_):
+                    sr = Ref(Cell(lt.mk(lt.words("s", ML)), "self"))
+                    r, _ = run_inst(F, lt.key("MerImmut", "set_slice"), [sr, usize(p), usize(n), Int(64, False, bits=V)])
+                    spec = lt.words("s", ML)
+                    for t in range(n):
+                        w, hi, lo = lt.pos_bits(p + t)
+                        spec[w][hi], spec[w][lo] = V[63 - 2 * t], V[62 - 2 * t]
+                    ok = expect_words(rep, "L-lmer-slice", "%s/immut/pos=%d/n=%d" % (tag, p, n), lt.words_of(r), spec,
+                                      "set_slice(%d, %d, value) returns the string with exactly bases %d..%d written; length byte and other bases unchanged" % (p, n, p, p + n))
+                    if ok:
+                        expect_words(rep, "L-lmer-slice", "%s/immut-self/pos=%d/n=%d" % (tag, p, n), lt.words_of(sr.cell.v), lt.words("s", ML),
+                                     "set_slice(%d, %d, value) leaves the receiver unchanged" % (p, n))
+                guarded(rep, "L-lmer-slice", "%s/immut/pos=%d/n=%d" % (tag, p_, n_), "set_slice", f)
+        if want("set") and lt.key("MerImmut", "set") in F.insts:
+            for p_ in sorted({0, 1, 31, 32, ML - 1} & set(range(ML))):
+                def f(p=p_):
+                    sr = Ref(Cell(lt.mk(lt.words("s", ML)), "self"))
+                    r, _ = run_inst(F, lt.key("MerImmut", "set"), [sr, usize(p), base_arg()])
+                    spec = lt.words("s", ML)
+                    w, hi, lo = lt.pos_bits(p)
+                    spec[w][hi], spec[w][lo] = var("v", 1), var("v", 0)
+                    expect_words(rep, "L-lmer-set", "%s/immut/pos=%d" % (tag, p), lt.words_of(r), spec, "set(%d, v) returns the string with exactly base %d replaced" % (p, p))
+                guarded(rep, "L-lmer-set", "%s/immut/pos=%d" % (tag, p_), "set", f)
+
         if want("rc"):
             for ell in range(ML + 1):
                 def f(ell=ell):
@@ -1904,14 +1934,14 @@ def slice_getkmer_lemmas(F, rep, rule="C15.1", quick=True):
         # both_term_kmer = (first, last) — on both strands (whichever way the accessor is implemented for views)
         from .dt import dir_v, LEFT, RIGHT
         for st in ((1, 33) if quick else (0, 1, 17, 31, 33)):
-            for rc in (False, True):
-                ln = K + 5
+            for rc, ln in [(rc_, ln_) for rc_ in (False, True) for ln_ in ((K + 5, K + 1) if quick else (K + 5, K, K + 1, K + 2, K + 4))]:
                 for meth, extra, picks in (("first_kmer", [], [0]), ("last_kmer", [], [ln - K]), ("term_kmer", [dir_v(LEFT)], [0]),
                                            ("term_kmer", [dir_v(RIGHT)], [ln - K]), ("both_term_kmer", [], [0, ln - K])):
                     akey = "<%s<'_> as Vmer>::%s::<%s>" % (SLICE_T, meth, kty)
                     if akey not in F.insts:
                         continue
-                    vk = "%s/%s%s/start=%d/rc=%d" % (kty, meth, ("(%s)" % ("Left" if picks == [0] else "Right")) if extra else "", st, int(rc))
+                    vk = "%s/%s%s/start=%d/rc=%d%s" % (kty, meth, ("(%s)" % ("Left" if picks == [0] else "Right")) if extra else "", st, int(rc),
+                                                       "" if ln == K + 5 else "/len=K+%d" % (ln - K))
 
                     def g(st=st, rc=rc, ln=ln, kt=kt, K=K, akey=akey, vk=vk, meth=meth, extra=extra, picks=picks):
                         vals = {"dna_string": Ref(Cell(dt.sym("s", nback), "back")), "start": usize(st), "length": usize(ln),
